@@ -2,6 +2,7 @@ package main
 
 import (
 	"fmt"
+	"strings"
 	"time"
 )
 
@@ -48,6 +49,28 @@ func init() {
 			}
 			cov["reorg_between_batches_pass"] = map[string]interface{}{"prefix_blocks": 998, "states": mid.States, "transitions": mid.Transitions, "depth_completed": mid.DepthDone, "exhaustive": mid.Exhaustive}
 			long.Violations = append(long.Violations, mid.Violations...)
+			// short chains, one height per rescan batch: every import takes as many batches as the
+			// chain is high, with deliveries, new blocks, reorganisations (above, at and below the
+			// rescan cursor) and a restart between any two of them
+			batchOverlay := false
+			for _, o := range c.Overlays {
+				if strings.HasPrefix(o, "asyncImport:") && !strings.Contains(o, "NOT APPLIED") {
+					batchOverlay = true
+				}
+			}
+			if batchOverlay {
+				bo := map[string]interface{}{"import": true, "batch": 1, "templates": []string{"e"}, "patterns": []string{"E", "R"}, "max_reorg": 2, "max_queue": 2, "max_height": 5, "no_b": true,
+					"gap": 3, "c_blocks": []string{"pc0", "pc2", "sc"}, "setup": []string{"x.pc0", "d", "x.e", "d"}}
+				sb, err := runBFS(c.Bin, c.Scratch, bfsCfg{Model: "c01", Opts: bo, Depth: map[bool]int{false: 5, true: 8}[c.Tier == "thorough"], Workers: c.Workers, Deadline: dl, Recycle: 150, OpenTags: openTags(c)})
+				if err != nil {
+					return nil, nil, nil, err
+				}
+				cov["single_height_batches_pass"] = map[string]interface{}{"heights_per_batch": 1, "states": sb.States, "transitions": sb.Transitions, "depth_completed": sb.DepthDone, "exhaustive": sb.Exhaustive,
+					"per_event_transitions": sb.PerEvent, "distinct_outcomes": len(sb.Outcomes), "opts": bo}
+				long.Violations = append(long.Violations, sb.Violations...)
+			} else {
+				cov["single_height_batches_pass"] = "skipped: the current tree does not contain the line the rescan-batch overlay rewrites"
+			}
 			return cov, []string{
 				"the original wallet is represented by the reference ledger, which the C01 check shows equal to what a live wallet reports",
 				"rescan batches are atomic steps executed by the real asyncImport; finer interleavings of its suspend/resume hand-shake belong to C20",
